@@ -315,6 +315,11 @@ func fillCaseS(c *runCtx, r *rng, k int, cases, impl lineW) error {
 	case 2:
 		sc = sc.PositionRight()
 	}
+	if r.chance(1, 2) {
+		// colouring a frame adds no cell: the body keeps its width and position
+		sc = sc.Meta(colour)
+		c.count("S_meta")
+	}
 	f := sc.Build()
 	cases.WriteString(fmt.Sprintf("S %d %d %s\n", k, pos, strings.Join(ws, ",")))
 	c.count("S_cases")
@@ -460,6 +465,9 @@ func fillCaseD(c *runCtx, r *rng, k int, cases, impl lineW, hangs *int) error {
 			sc = sc.PositionLeft()
 		} else if pos == 2 {
 			sc = sc.PositionRight()
+		}
+		if r.chance(1, 2) {
+			sc = sc.Meta(colour)
 		}
 		filler = sc.Build()
 		fhdr = fmt.Sprintf("%d %d", pos, sw(fr))
